@@ -162,8 +162,15 @@ Definition pre_ok (before : val) (e : event) : bool :=
   | EvUpsert _ _ (Some pre) _ => oz_eqb before (Some pre)
   | _ => true end.
 
-Definition step_holds (l : obs_level) (univ : list Z) (pc : list (option val)) (ps : list val) (s : sstep) : bool :=
+(* same key, same worker: the cache that serves a key's calls is the one that served them before *)
+Definition worker_ok (ws : list (Z * Z)) (k : Z) (w : option Z) : bool :=
+  match w, lookup k ws with Some a, Some b => a =? b | _, _ => true end.
+Definition note_worker (ws : list (Z * Z)) (k : Z) (w : option Z) : list (Z * Z) :=
+  match w with Some a => (k, a) :: ws | None => ws end.
+
+Definition step_holds (l : obs_level) (univ : list Z) (pc : list (option val)) (ps : list val) (ws : list (Z * Z)) (s : sstep) : bool :=
   let o := st_obs s in let k := key_of (st_op s) in
+  worker_ok ws k (ob_worker o) &&
   (* every callback and every cache write of the operation is about the operation's key *)
   forallb (fun e => ev_key e =? k) (ob_events o)
   (* keys other than the operation's keep their store value *)
@@ -188,10 +195,13 @@ Definition step_holds (l : obs_level) (univ : list Z) (pc : list (option val)) (
      | _ => true
      end.
 
-Fixpoint seq_holds (l : obs_level) (univ : list Z) (pc : list (option val)) (ps : list val) (steps : list sstep) : bool :=
+Fixpoint seq_holds (l : obs_level) (univ : list Z) (pc : list (option val)) (ps : list val) (ws : list (Z * Z))
+                   (steps : list sstep) : bool :=
   match steps with
   | [] => true
-  | s :: rest => step_holds l univ pc ps s && seq_holds l univ (ob_cache (st_obs s)) (ob_store (st_obs s)) rest
+  | s :: rest => step_holds l univ pc ps ws s
+                 && seq_holds l univ (ob_cache (st_obs s)) (ob_store (st_obs s))
+                              (note_worker ws (key_of (st_op s)) (ob_worker (st_obs s))) rest
   end.
 
 
